@@ -41,6 +41,13 @@ Theorem compare_zero_iff_same_name : forall st ops n1 k1 n2 k2, tables_inverse s
 Proof. exact SymtabProofs.compare_zero_iff_same_name. Qed.
 Print Assumptions compare_zero_iff_same_name.
 
+(* comparisons.go compareArray / comparePair over symbols: (== [a b] [c d]), (== (list a) (list b)) *)
+Theorem compare_symbols_zero_iff_same_names : forall st ops (l1 l2 : list (name * Z)), tables_inverse st ->
+  (forall n k, In (n, k) l1 -> symbol_of st ops n k) -> (forall n k, In (n, k) l2 -> symbol_of st ops n k) ->
+  (compare_symbols (map snd l1) (map snd l2) = 0 <-> map fst l1 = map fst l2).
+Proof. exact SymtabProofs.compare_symbols_zero_iff_same_names. Qed.
+Print Assumptions compare_symbols_zero_iff_same_names.
+
 (* ---- 3. a generated symbol is new ---- *)
 
 (* in ANY state (no invariant needed): the name was not interned and the number was not used *)
